@@ -80,19 +80,23 @@ def _shift_term(t, loff, boff, ret_to, ret_dest, ret0, unwind_to, file):
     return [], t
 
 
-def callee_path(t):
+def callee_path(t, through_traits=True):
     if t['k'] != 'call' or t['func'].get('k') != 'const':
         return None
     fn = t['func'].get('fn')
-    if not fn or not fn.get('local'):
+    if not fn:
         return None
     r = fn.get('resolved')
+    if not fn.get('local') and not through_traits:
+        return None
     if r and r.get('kind') == 'item' and r.get('local'):
-        return r['def']
+        return r['def']         # (also a method of a foreign trait -- PartialEq::eq -- resolved to an impl of this crate)
+    if not fn.get('local'):
+        return None
     return fn['def']
 
 
-def inline_into(raw, raws, should_inline, stack=(), depth=0, log=None):
+def inline_into(raw, raws, should_inline, stack=(), depth=0, log=None, through_traits=True):
     """returns a copy of `raw` in which every direct call of a function selected by should_inline(path) is expanded"""
     out = copy.deepcopy(raw)
     i = 0
@@ -100,7 +104,7 @@ def inline_into(raw, raws, should_inline, stack=(), depth=0, log=None):
     while i < n0:      # only the blocks of `raw` itself: what gets spliced in was expanded already (and may be recursive)
         b = out['blocks'][i]
         t = b['term']
-        p = callee_path(t)
+        p = callee_path(t, through_traits)
         if p is None or p not in raws or not should_inline(p) or p in stack or p == raw['path'] or depth >= MAX_DEPTH:
             i += 1
             continue
@@ -108,7 +112,7 @@ def inline_into(raw, raws, should_inline, stack=(), depth=0, log=None):
         if g.get('promoted') is not None or g['arg_count'] != len(t['args']):
             i += 1
             continue
-        g = inline_into(g, raws, should_inline, stack + (raw['path'],), depth + 1, log)
+        g = inline_into(g, raws, should_inline, stack + (raw['path'],), depth + 1, log, through_traits)
         if log is not None:
             log.append((raw['path'], p, [_closure_arg(out, a) for a in t['args']]))
         splice(out, i, g, t['args'], t['dest'], t.get('target'), t.get('unwind'), t, p)
